@@ -169,6 +169,12 @@ def _tables(cx, after):
                     what = 'stale' if extra and not missing else ('missing' if missing and not extra else 'different')
                     sim.violation_once('tbl-coc', f'table:le_coc_channels:{what}:after={after}',
                                        f'N{node} link {link}: le_coc_channels has peer CIDs {have}, open channels have {want_dst}')
+            # nothing is being opened at quiescence: the tables of requests in flight are empty
+            for name in ('le_coc_requests', 'pending_credit_based_connections'):
+                tbl = getattr(mgr, name, None)
+                pend = [k for k, v in (tbl or {}).items() if v] if name != 'le_coc_requests' else list((tbl or {}).keys())
+                if pend:
+                    sim.violation_once('tbl-pending', f'table:{name}:stale-request:after={after}', f'N{node}: {name} still holds {pend[:4]} although no open is in flight')
             # CIDs unique per connection
             if len(set(want_src)) != len(want_src):
                 sim.violation_once('cid-dup', f'cid-not-unique:after={after}', f'N{node} link {link}: local CIDs {want_src}')
@@ -316,7 +322,9 @@ def _do_cut(cx, op):
     label = what
     if what == 'open':
         psm = (CL_PSMS if classic else LE_PSMS)[0]
-        tasks.append(sim.loop.create_task(_open_coro(cx, link, opside, kind, psm, 1)))
+        if not classic and idx % 3 == 0:
+            kind = 'ecbfc'  # an enhanced credit-based request (1-3 channels) is the open that the link loss interrupts
+        tasks.append(sim.loop.create_task(_open_coro(cx, link, opside, kind, psm, 1 + idx % 3 if kind == 'ecbfc' else 1)))
     elif what == 'close' and mine:
         ch = mine[idx % len(mine)]
         kind = ch.kind
@@ -545,7 +553,20 @@ def run_tables(case):
                         if after_tbl != before_tbl:
                             sim.violation_once('tbl-abandoned', f'table:channels:stale:after=abandoned-open:{ck}',
                                                f'N{node} link {link}: channels table has CIDs {after_tbl}, had {before_tbl} before the open that its caller cancelled')
+                        # (the acceptor may legitimately still hold the channel it accepted: its tables are not compared here)
+                        for nd in (node, peer_node):
+                            m2 = world[nd].device.l2cap_channel_manager
+                            for name in ('le_coc_requests', 'pending_credit_based_connections'):
+                                tbl = getattr(m2, name, None)
+                                pend = [k for k, v in (tbl or {}).items() if v] if name != 'le_coc_requests' else list((tbl or {}).keys())
+                                if pend:
+                                    sim.violation_once('tbl-pending', f'table:{name}:stale-request:after=abandoned-open', f'N{nd}: {name} still holds {pend[:4]} although no open is in flight')
                         cx.shape.append(('abandoned', ck))
+                        # the identifier the abandoned attempt held is free again: the next opens succeed
+                        if not sim.violations:
+                            for _ in range(2):
+                                if not _do_open(cx, link, side, ck, 0, 1, tag='open-after-abandoned-open'):
+                                    break
         sim.trace.shape(tuple(cx.shape))
         return result(sim, nontrivial=cx.reused > 0 or sim.probes['link_cut_hit_operation_in_flight'] > 0)
     finally:
